@@ -18,7 +18,7 @@ def sh(cmd, cwd, env=None, timeout=3600):
 
 
 def verify(wt, src):
-    env = dict(ENV, CARGO_TARGET_DIR="/tmp/wt/target-shared")
+    env = dict(ENV, CARGO_TARGET_DIR="/tmp/wt/target-" + os.path.basename(wt.rstrip("/")))
     patch = os.path.join(src, "patch.diff")
     demo = os.path.join(src, "demo.rs")
     out = {}
@@ -60,26 +60,32 @@ def verify(wt, src):
 
 
 def run(sdir, props):
+    # by default the patch goes onto /repo itself; SEEDED_REPO / SEEDED_VERIF name a scratch worktree of
+    # /repo (same HEAD) and a worktree of /verif whose harness depends on it, so that a sweep over
+    # many patches can run while /repo stays untouched
+    REPO = os.environ.get("SEEDED_REPO", "/repo")
+    VERIF = os.environ.get("SEEDED_VERIF", "/verif")
+    env = dict(ENV, IREF_REPO=REPO)
     patch = os.path.join(sdir, "patch.diff")
-    rc, o = sh(["git", "-C", "/repo", "status", "--porcelain"], "/repo")
+    rc, o = sh(["git", "-C", REPO, "status", "--porcelain"], REPO)
     if o.strip():
         print("refusing: /repo is not clean:\n" + o); return 2
-    rc, o = sh(["git", "-C", "/repo", "apply", patch], "/repo")
+    rc, o = sh(["git", "-C", REPO, "apply", patch], REPO)
     if rc != 0:
         print("patch does not apply to /repo:\n" + o[-600:]); return 2
     results = {}
     try:
         for p in props:
             t0 = time.time()
-            rc, o = sh(["./check", p, "quick"], "/verif", timeout=3000)
+            rc, o = sh(["./check", p, "quick"], VERIF, env=env, timeout=3000)
             lines = [l for l in o.splitlines() if l.startswith("VIOLATION") or l.startswith("INCONCLUSIVE") or l.startswith("  C")]
             results[p] = {"exit": rc, "wall_s": round(time.time() - t0, 1), "first": lines[:2]}
             print(p, rc, (lines[1][:200] if len(lines) > 1 else (lines[0][:200] if lines else "")), flush=True)
     finally:
-        sh(["git", "-C", "/repo", "checkout", "--", "."], "/repo")
-        sh(["git", "-C", "/repo", "clean", "-fdq", "crates", "src"], "/repo")
-        shutil.rmtree("/verif/evidence/replay", ignore_errors=True)
-    json.dump(results, open(os.path.join(sdir, "results.json"), "w"), indent=1)
+        sh(["git", "-C", REPO, "checkout", "--", "."], REPO)
+        sh(["git", "-C", REPO, "clean", "-fdq", "crates", "src"], REPO)
+        shutil.rmtree(os.path.join(VERIF, "evidence/replay"), ignore_errors=True)
+    json.dump(results, open(os.path.join(sdir, os.environ.get("SEEDED_RESULTS", "results.json")), "w"), indent=1)
     caught = [p for p, r in results.items() if r["exit"] == 1]
     print("caught by:", caught)
     return 0
